@@ -147,3 +147,11 @@ CLAIMS["C11"] = (
     "Unit expressions printed by sympy may contain names the header does not import (not decidable statically from the templates).",
     "DESIGN.md section 4 C11, Appendix A.6",
 )
+CLAIMS["C08"] = (
+    "dispatcher/handler extraction over the AST->MathML converters, typestate check of created ASTNodes (payload before return), taint-style identifier discipline on all id sinks, sign analysis of the reactant/product choice, operator-table vetting against a MathML reference, and API-existence checks against libsbml's class dictionary (read as a type environment only)",
+    "Decides the EXPORTER half structurally for all models and expression trees: (E1) every converter default raises, comparison chains/call arity/keywords are consumed or refused, multi-statement bodies are refused; (E2) name/real nodes get their payload and no nameless generic function node exists; (E3) every id reaching setId/setSpecies/setSymbol/setVariable passes the converter with the prefix of the entity it denotes; "
+    "(E4) numeric coefficients are reactants iff negative with abs(), computed ones go to the value-preserving side; (E5) 27 operator-table and 14 operator-case entries carry their MathML meaning and arity; (E6) 60+ libsbml method calls exist on the class their factory returns. "
+    "What pysbml reads back, name un-escaping on import and numeric fidelity are not decided. One known finding remains: names inside formulas are not converted like the ids they refer to.",
+    "libsbml is imported only to read its class dictionary; no MxlPy code runs. Reference table of MathML meanings is the trusted base.",
+    "DESIGN.md section 4 C08",
+)
